@@ -12,7 +12,7 @@
    Time is an integer tick; the harness maps a tick to YearNs / YearTicks
    nanoseconds so that the hard-coded year of CalculateInflation is YearTicks
    ticks.  Decimals are integers scaled by P (DecArith). *)
-EXTENDS Integers, Sequences, FiniteSets, TLC, DecArith
+EXTENDS Integers, Sequences, FiniteSets, TLC, MinterMath
 
 CONSTANTS Configs,      \* initial configurations (records, see ValidCfg)
           UpdateTries,  \* update attempts <<kind, authority, payload>>; "gov" is the governance account
@@ -77,13 +77,13 @@ StartOf(c, s) == IF HasPrev(c, s) THEN c.periods[PrevIdx(c, s)].end ELSE c.start
 LinAmount(p, st, t) ==
   IF t > p.end THEN DecFromInt(p.amount)
   ELSE IF t < st THEN 0
-  ELSE DecQuoInt(DecMulInt(DecFromInt(p.amount), t - st), p.end - st)
+  ELSE LinPart(p.amount, t - st, p.end - st)
 LinExact(p, st, t) ==
   (t > p.end \/ t < st) \/ QuoIntExact(DecMulInt(DecFromInt(p.amount), t - st), p.end - st)
 
 \* epoch amount after k multiplications: amount * mult^k with Dec.Mul rounding at every step
 RECURSIVE EpochAmount(_, _)
-EpochAmount(p, k) == IF k <= 0 THEN DecFromInt(p.amount) ELSE DecMul(EpochAmount(p, k - 1), p.mult)
+EpochAmount(p, k) == IF k <= 0 THEN DecFromInt(p.amount) ELSE NextEpoch(EpochAmount(p, k - 1), p.mult)
 RECURSIVE EpochExact(_, _)
 EpochExact(p, k) == IF k <= 0 THEN TRUE ELSE EpochExact(p, k - 1) /\ MulExact(EpochAmount(p, k - 1), p.mult)
 \* sum of the first n epochs (i = 0 .. n-1)
@@ -96,7 +96,7 @@ ExpAmount(p, st, t) ==
       n == TQuo(nw - st, p.step)                    \* Go integer division
       passedInEpoch == nw - (st + n * p.step)
       cur == IF n > 0 THEN EpochAmount(p, n) ELSE DecFromInt(p.amount)
-  IN EpochSum(p, n) + DecQuoInt(DecMulInt(cur, passedInEpoch), p.step)
+  IN EpochSum(p, n) + ExpPart(cur, passedInEpoch, p.step)
 ExpExact(p, st, t) ==
   LET nw == ExpNow(p, t)
       n == TQuo(nw - st, p.step)
@@ -148,13 +148,13 @@ Inflation(c, m, supply, t) ==
                       \* documented: zero once the period's end has passed; the code has no such test
                       \* for linear periods (quirk "LinInflationAfterEnd")
                       ELSE IF t >= p.end /\ "LinInflationAfterEnd" \notin Quirks THEN 0
-                      ELSE DecQuoInt(DecQuoInt(DecMulInt(DecFromInt(p.amount), YearTicks), p.end - st), supply)
+                      ELSE YearlyOverSupply(DecFromInt(p.amount), YearTicks, p.end - st, supply)
                  [] p.kind = "EXP" ->
                       IF supply <= 0 THEN 0
                       ELSE IF p.end # NoEnd /\ t >= p.end THEN 0
                       ELSE LET n == TQuo(t - st, p.step)
                                cur == IF n > 0 THEN EpochAmount(p, n) ELSE DecFromInt(p.amount)
-                           IN DecQuoInt(DecQuoInt(DecMulInt(cur, YearTicks), p.step), supply)
+                           IN YearlyOverSupply(cur, YearTicks, p.step, supply)
                  [] OTHER -> 0
 
 Supply == IF cfg.denom \in DOMAIN sup THEN sup[cfg.denom] ELSE 0
